@@ -4,6 +4,7 @@
 mod alpha;
 mod dd;
 mod engine;
+mod heap;
 mod oracle;
 mod props;
 mod refm;
@@ -14,6 +15,9 @@ mod subjects;
 mod types;
 
 use engine::Ctx;
+
+#[global_allocator]
+static GLOBAL: heap::Counting = heap::Counting;
 use std::time::Duration;
 
 fn usage() -> ! {
@@ -69,6 +73,11 @@ fn main() {
         "C11" => props::c11::run(&ctx),
         "C12" => props::c12::run(&ctx),
         "C13" => props::c13::run(&ctx),
+        "C14" => props::c14::run(&ctx),
+        "C15" => props::c15::run(&ctx),
+        "C16" => props::c16::run(&ctx),
+        "C17" => props::c17::run(&ctx),
+        "C18" => props::c18::run(&ctx),
         _ => {
             eprintln!("unknown or unclaimed property {}", prop);
             std::process::exit(2);
